@@ -188,7 +188,8 @@ Fixpoint libm_lookup (t : libm_table) (fn : libm_fn) (args : list float) : float
       if libm_fn_eqb fn fn' && args_eqb args args' then r else libm_lookup t' fn args
   end.
 
-Definition B64ops (t : libm_table) : FloatOps float := {|
+Definition B64opsC (t : libm_table) (call : val float -> list (val float) -> val float)
+  : FloatOps float := {|
   f_of_Z := b64_of_Z;
   f_add := PrimFloat.add;
   f_sub := PrimFloat.sub;
@@ -213,7 +214,12 @@ Definition B64ops (t : libm_table) : FloatOps float := {|
   f_pi := 0x1.921fb54442d18p+1%float;
   f_deg2rad := 0x1.1df46a2529d39p-6%float;
   f_rad2deg := 0x1.ca5dc1a63c1f8p+5%float;
-  f_fsum := b64_fsum
+  f_fsum := b64_fsum;
+  f_dom := fun _ _ => true;
+  f_call := call
 |}.
+
+Definition B64ops (t : libm_table) : FloatOps float :=
+  B64opsC t (fun _ _ => VErr Unsupported).
 
 Definition B0 := B64ops [].
